@@ -17,5 +17,6 @@ theorem body_isIncompleteEvent : Tea.Gen.fact_body_isIncompleteEvent = Tea.Doc.f
 theorem body_parseSGRMouseEvent : Tea.Gen.fact_body_parseSGRMouseEvent = Tea.Doc.fact_body_parseSGRMouseEvent := rfl
 theorem body_parseX10MouseEvent : Tea.Gen.fact_body_parseX10MouseEvent = Tea.Doc.fact_body_parseX10MouseEvent := rfl
 theorem body_parseMouseButton : Tea.Gen.fact_body_parseMouseButton = Tea.Doc.fact_body_parseMouseButton := rfl
+theorem body_MouseEvent_IsWheel : Tea.Gen.fact_body_MouseEvent_IsWheel = Tea.Doc.fact_body_MouseEvent_IsWheel := rfl
 
 end Tea.Props.Bridge.C11
